@@ -20,6 +20,8 @@ structure SQEng where
   recvBatches : Nat := 0
   prev : SQObs := {}
   dead : Bool := false
+  pending : Bool := false     -- a Shutdown call is waiting (between `initShutdown` and `closeMessages`): ops shutbegin / shutend
+  lastShut : String := ""     -- how the last such call ended
 deriving Inhabited
 
 def csvNats (l : List Nat) : String := if l.isEmpty then "-" else String.intercalate "," (l.map toString)
@@ -88,7 +90,17 @@ def sqSpec (q : Nat) (prev : SQObs) (n : Nat) (line : String) : List String × S
 
 def spanqStep (e : SQEng) (t : Tokens) (impl : Option String) : SQEng × StepOut :=
   let finish (e' : SQEng) (n : Nat) (extra : String) : SQEng × StepOut :=
-    let e' := settleEng { e' with recvBatches := e'.recvBatches + countTake e.s.worker e'.s.worker }
+    let e' := { e' with recvBatches := e'.recvBatches + countTake e.s.worker e'.s.worker }
+    -- while a Shutdown call waits and batches are queued, a worker that comes back to its select has TWO enabled branches
+    -- (the queue, the shutdown signal) and Go picks either: the engine follows the implementation's choice
+    let sawShutdown := e'.pending && e'.s.worker == .ready && !e'.s.chan.isEmpty && !e'.s.closed &&
+      (match impl with
+       | some line => (kvGet (tokenize line) "worker") == some "exited"
+       | none => false)
+    let e' := if sawShutdown then { e' with s := e'.s.step .seeShutdown } else settleEng e'
+    -- the waiting Shutdown call returns as soon as the worker has gone, and closes the queue
+    let e' := if e'.pending && e'.s.shutdownComplete then
+        { e' with s := e'.s.step .closeMessages, pending := false, lastShut := "ok" } else e'
     let (fails, obs) := match impl with
       | some line =>
         if line == "panic" then
@@ -114,7 +126,21 @@ def spanqStep (e : SQEng) (t : Tokens) (impl : Option String) : SQEng × StepOut
   | "resperr" =>
     if e.s.worker != .ready then finish e 0 " noop=1"
     else finish { e with s := e.s.step (.respErr (statusFatal (tokStr t 2))) } 0 ""
+  | "shutbegin" =>
+    -- `Shutdown` starts on its own goroutine while the worker is inside send(): initShutdown now, closeMessages later
+    (match e.s.worker with
+     | .inSend _ =>
+       if e.pending || e.s.shutdownInitiated then finish e 0 " noop=1"
+       else finish { e with s := e.s.step .initShutdown, pending := true, lastShut := "" } 0 ""
+     | _ => finish e 0 " noop=1")
+  | "shutend" =>
+    if !e.pending && e.lastShut == "" then finish e 0 " noop=1"
+    else if e.pending then
+      -- the worker is still busy: the time-out expires, the queue is closed under it
+      finish { e with s := e.s.step .closeMessages, pending := false, lastShut := "" } 0 " shutdown=timeout late=0"
+    else finish { e with lastShut := "" } 0 (" shutdown=" ++ e.lastShut ++ " late=0")
   | "shutdown" =>
+    if e.pending then finish e 0 " noop=1" else
     -- initShutdown; the worker sees it if it is in its select; wait or time out; closeMessages
     let already := e.s.shutdownComplete
     let e1 := settleEng { e with s := e.s.step .initShutdown }
